@@ -6,6 +6,11 @@ P = "dict_wf(value) and dict_wf(self.params) and "
 ECALL = "statham.schema.elements.base:Element.__call__"
 STRLIST = "is_list({x}) and forall(lambda j: is_str({x}[j]), len({x}))"
 
+contract(M + "Dependencies.validate_schema_dependency",
+         requires="is_obj(dependency) and not is_np(value)",
+         raises=[("ValidationError", "not sem(dependency, value)")],
+         calls={"dependency": ECALL}, props=["C01", "C10", "C08"])
+
 contract("statham.schema.elements.properties:Properties.__contains__",
          requires="is_str(key)", returns="result is props_accepts(self, key)",
          ghost={"function": "props_accepts(self, key)"},
